@@ -131,6 +131,9 @@ def battery():
                         cases.append({"entry": "update_callable", "slot": slot, "wi": wi, "cfg": cfg, "route": route, "late": True})
                         # a wrong static value next to a (valid) callable in another slot
                         cases.append({"entry": "update_static", "slot": slot, "wi": wi, "cfg": cfg, "route": route, "mixed": True})
+                    if route in ("db.update", "h.update") and slot in ("tag_key", "tag_value", "field_key", "field_value"):
+                        # the callable writes the wrong entry into the mapping it was handed and returns that same object
+                        cases.append({"entry": "update_callable", "slot": slot, "wi": wi, "cfg": cfg, "route": route, "inplace": True})
     for wi in range(8):
         for cfg in range(4):
             for route in ("db.insert", "db.insert_multiple", "db.insert_multiple_mid", "h.insert", "h.insert_multiple_mid"):
@@ -253,6 +256,12 @@ def run_case(case, ctx, wrong_value=None):
                     return _ok if calls["n"] == 1 else _v
 
                 kw = {arg: late_cb}
+            elif case.get("inplace") and isinstance(val, dict):
+                def inplace_cb(old, _v=val):
+                    old.update(_v)
+                    return old
+
+                kw = {arg: inplace_cb}
             else:
                 kw = {arg: (lambda old, _v=val: _v)}
             falsy = entry == "update_static" and not val and not case.get("mixed")
@@ -311,7 +320,7 @@ def run_case(case, ctx, wrong_value=None):
 
 
 def nontrivial(case):
-    return case.get("primed") or case.get("late") or case.get("mixed") or case["entry"] == "update_callable" or case.get("slot") in ("tag_key", "tag_value", "field_key", "field_value") or case.get("route", "").endswith("_mid")
+    return case.get("primed") or case.get("late") or case.get("mixed") or case.get("inplace") or case["entry"] == "update_callable" or case.get("slot") in ("tag_key", "tag_value", "field_key", "field_value") or case.get("route", "").endswith("_mid")
 
 
 def shards(tier):
